@@ -1,0 +1,74 @@
+//go:build verif
+
+package dkg
+
+import (
+	"slices"
+
+	"go.dedis.ch/kyber/v4"
+)
+
+// Exports of unexported internals for the /verif correspondence harness
+// (property C11). Compiled only with the build tag `verif`.
+
+// VerifSet exposes the per-phase packet store of the Protocol driver.
+type VerifSet struct{ s *set }
+
+func VerifNewSet() *VerifSet      { return &VerifSet{s: newSet()} }
+func (v *VerifSet) Push(p Packet) { v.s.Push(p) }
+func (v *VerifSet) Len() int      { return v.s.Len() }
+func (v *VerifSet) Bad() []Index  { return slices.Clone(v.s.bad) }
+func (v *VerifSet) Stored() map[Index]Packet {
+	m := make(map[Index]Packet, len(v.s.vals))
+	for k, p := range v.s.vals {
+		m[k] = p
+	}
+	return m
+}
+func (v *VerifSet) ToDeals() []*DealBundle                   { return v.s.ToDeals() }
+func (v *VerifSet) ToResponses() []*ResponseBundle           { return v.s.ToResponses() }
+func (v *VerifSet) ToJustifications() []*JustificationBundle { return v.s.ToJustifications() }
+
+// VerifState is a snapshot of the generator's bookkeeping.
+type VerifState struct {
+	Phase          Phase
+	Statuses       map[uint32]map[uint32]Status
+	Evicted        []uint32
+	EvictedHolders []uint32
+	ValidShares    map[uint32]kyber.Scalar
+	Publics        map[uint32][]kyber.Point
+	OIdx, NIdx     uint32
+	CanIssue       bool
+	CanReceive     bool
+	IsResharing    bool
+	OldT, NewT     uint32
+}
+
+func (d *DistKeyGenerator) VerifState() VerifState {
+	st := VerifState{
+		Phase: d.state, Evicted: slices.Clone(d.evicted), EvictedHolders: slices.Clone(d.evictedHolders),
+		Statuses: map[uint32]map[uint32]Status{}, ValidShares: map[uint32]kyber.Scalar{},
+		Publics: map[uint32][]kyber.Point{}, OIdx: d.oidx, NIdx: d.nidx, CanIssue: d.canIssue,
+		CanReceive: d.canReceive, IsResharing: d.isResharing, OldT: d.oldT, NewT: d.newT,
+	}
+	for dealer, row := range *d.statuses {
+		r := map[uint32]Status{}
+		for h, s := range row {
+			r[h] = s
+		}
+		st.Statuses[dealer] = r
+	}
+	for k, v := range d.validShares {
+		st.ValidShares[k] = v.Clone()
+	}
+	for k, p := range d.allPublics {
+		_, c := p.Info()
+		st.Publics[k] = c
+	}
+	return st
+}
+
+// VerifPriCoeffs returns the coefficients of the generator's secret polynomial.
+func (d *DistKeyGenerator) VerifPriCoeffs() []kyber.Scalar {
+	return d.dpriv.Coefficients()
+}
